@@ -5,15 +5,15 @@ import json, sys
 claimed = {
  "C09": dict(cat="fault_enumeration", ref="DESIGN.md section 4 (C09)",
    technique="deterministic simulation of the entropy seam: enumerated single-fault layer + seeded multi-fault signing histories, checked against RFC 6979 / sampler reference models and a no-reuse history oracle",
-   text="Every single fault at the entropy seam (error position 0..33 x kind x delivery, every partition, stuck payloads, every candidate-class sequence of length <= 3, retry streams, RFC 6979 generator grid) is enumerated on every run; multi-fault histories (stuck/replayed entropy across keys and digests, failing-then-healthy devices) are sampled from VERIF_SEED. Oracles: exact 32-byte consumption, abort on error, chunking unobservable, no r/nonce shared by events with different (key, e, entropy) - also across long histories of up to 2048 signatures with stuck or shared entropy -, cumulative exact consumption on a shared device, nonce != entropy, sampler = first candidate in [1,n), RFC 6979 signatures and generator reads equal an independent model (the generator is read into fresh or reused buffers that the caller leaves alone, zeroes or overwrites). History faults: the caller overwrites the buffer it passed to NewPrivateKey and the latest event is signed again; two of (key, digest, entropy) are changed together by exactly their XOR difference; the entropy is changed by a multiple of n or p (two different strings, one residue); long histories sign an earlier digest again every few events, at back-distances 1..1025 around powers of two, and require the first answer; options name any of sixteen hashes (32-byte ones that are not SHA-256, shorter ones, ones not linked in) as crypto.Hash, inside *ECDSAOptions or inside a crypto.SignerOpts of a foreign type; the garbage collector runs (one or two complete collections, finalizers to completion) as a tape-decided step between operations; the reader's bytes are, in 1 of 12 devices, written by a helper goroutine while the signing goroutine's stack is moved; one device in six is presented to the library as a *bytes.Buffer, *bytes.Reader, *strings.Reader or *bufio.Reader (every end position 0..33 of each is in the enumerated layer); the entropy equals another input of the call (digest, key encoding, its negation); 16 histories (160 in the thorough tier) run in a GOARCH=386 build of library and harness, and the enumerated layer a second time plus some histories in a build made with go1.26.8 (code behind Go-version build constraints); a device may panic instead of returning (the caller recovers; the keys are judged by what follows). Stall world: one ECDSA signing call per run inside a testing/synctest bubble (fake clock, test binary built with go1.26.8) whose entropy reader - passed explicitly or behind crypto/rand.Reader - delivers 0..31 bytes in short reads and then blocks for 1 s .. 1000 h of simulated time before failing; the call must not come back with a signature while its reader is blocked or after it failed (a library that arms a timer and goes on without the entropy is caught in microseconds).",
+   text="Every single fault at the entropy seam (error position 0..33 x kind x delivery, every partition, stuck payloads, every candidate-class sequence of length <= 3, retry streams, RFC 6979 generator grid) is enumerated on every run; multi-fault histories (stuck/replayed entropy across keys and digests, failing-then-healthy devices) are sampled from VERIF_SEED. Oracles: exact 32-byte consumption, abort on error, chunking unobservable, no r/nonce shared by events with different (key, e, entropy) - also across long histories of up to 2048 signatures with stuck or shared entropy -, cumulative exact consumption on a shared device, nonce != entropy, sampler = first candidate in [1,n), RFC 6979 signatures and generator reads equal an independent model (the generator is read into fresh or reused buffers that the caller leaves alone, zeroes or overwrites). History faults: the caller overwrites the buffer it passed to NewPrivateKey and the latest event is signed again; two of (key, digest, entropy) are changed together by exactly their XOR difference; the entropy is changed by a multiple of n or p (two different strings, one residue); long histories sign an earlier digest again every few events, at back-distances 1..1025 around powers of two, and require the first answer; options name any of sixteen hashes (32-byte ones that are not SHA-256, shorter ones, ones not linked in) as crypto.Hash, inside *ECDSAOptions or inside a crypto.SignerOpts of a foreign type; the garbage collector runs (one or two complete collections, finalizers to completion) as a tape-decided step between operations; the reader's bytes are, in 1 of 12 devices, written by a helper goroutine while the signing goroutine's stack is moved; one device in six is presented to the library as a *bytes.Buffer, *bytes.Reader, *strings.Reader or *bufio.Reader (every end position 0..33 of each is in the enumerated layer); the entropy equals another input of the call (digest, key encoding, its negation); 16 histories (160 in the thorough tier) run in a GOARCH=386 build of library and harness, and the enumerated layer a second time plus some histories in a build made with go1.26.8 (code behind Go-version build constraints); a device may panic instead of returning (the caller recovers; the keys are judged by what follows). Stall world: one ECDSA signing call per run inside a testing/synctest bubble (fake clock, test binary built with go1.26.8) whose entropy reader - passed explicitly or behind crypto/rand.Reader - delivers 0..31 bytes in short reads and then blocks for 1 s .. 1000 h of simulated time before failing; the call must not come back with a signature while its reader is blocked or after it failed (a library that arms a timer and goes on without the entropy is caught in microseconds). Key objects come and go while the keys stay (an operation of the history: passers-by imported, used once and dropped; every key signs one (digest, entropy) pair; all key objects are dropped and collected and the keys imported again from their bytes in a tape-chosen rotation; the same pair signed again must give the same signatures); one signing call in six is made on a key object imported for that call alone (the caller holds no reference while the library works); one device in ten runs one or two complete garbage collections, finalizers included, inside its first Read, and one in ten signs with a bystander key inside its first Read (a reader that calls back into the library).",
    note="Trusted: Go's HMAC/SHA-256, math/big, the reference models (pinned to the bitcointalk RFC 6979 vectors, BIP-340 vectors and Wycheproof by a self-test). Bias: the structural clause (out-of-range candidates rejected, not reduced) is decided against the sampler model; in addition every long history extracts all nonces (the private key is known) and screens the 16 top and 16 bottom bits of min(k, n-k) at 8 standard deviations, which catches truncated, masked or fixed-bit nonces but cannot see subtle bias (in particular a bias confined to the top bit of k). Multi-fault histories are sampled, not enumerated. A signing call that FAILS WITH AN ERROR after more than three consecutive (0, nil) reads is counted, not reported (failing closed on a reader that makes no progress is not forbidden by the statement; signing without the entropy is). If go1.26.8 is not on PATH the stall world is skipped and the evidence says so (coverage.stall_world.state)."),
  "C08": dict(cat="exploration", ref="DESIGN.md section 4 (C08)",
    technique="deterministic simulation of the entropy seam; postconditions monitored as invariants on every successful signing event of every simulated history",
-   text="Entropy-source clause only: on every successful Sign/SignRaw of every simulated history (healthy and faulted devices, RFC 6979 mode, rand == nil) the signature has r in [1,n), low s, verifies under d*G in the reference model and in the library in every encoding with both malleability settings, carries the unique recovery id that recovers the signer, parses back to the same (r,s,v), and is unchanged by SelfVerify; inadmissible digest lengths / encodings must give an error. Long signing histories (256..2048 consecutive SignRaw calls under RFC 6979 / a stuck device / one shared device) reach the rare r/s shapes (leading zero bytes, short DER integers); each such event is re-signed through Sign in all three encodings, parsed back and verified. Caller-owned *ECDSAOptions objects are reused and rewritten across calls, 16 inadmissible encodings (including values whose low bits look valid), crypto/rand.Reader passed explicitly, and every signature handed out earlier in a history is re-checked later (the bytes are the caller's). Options name any of sixteen hashes (too short to sign, 32-byte ones that are not SHA-256, ones not linked into the program) as crypto.Hash, inside *ECDSAOptions or inside a crypto.SignerOpts of a foreign type; long histories sign earlier digests again at cache-sized back-distances and require the same (r, s, v); garbage collections are a tape-decided step; a few histories run in a GOARCH=386 build (32-bit int/uint: coverage.platform_386) and in a build made with go1.26.8 (coverage.toolchain_go1_26); readers that panic.",
+   text="Entropy-source clause only: on every successful Sign/SignRaw of every simulated history (healthy and faulted devices, RFC 6979 mode, rand == nil) the signature has r in [1,n), low s, verifies under d*G in the reference model and in the library in every encoding with both malleability settings, carries the unique recovery id that recovers the signer, parses back to the same (r,s,v), and is unchanged by SelfVerify; inadmissible digest lengths / encodings must give an error. Long signing histories (256..2048 consecutive SignRaw calls under RFC 6979 / a stuck device / one shared device) reach the rare r/s shapes (leading zero bytes, short DER integers); each such event is re-signed through Sign in all three encodings, parsed back and verified. Caller-owned *ECDSAOptions objects are reused and rewritten across calls, 16 inadmissible encodings (including values whose low bits look valid), crypto/rand.Reader passed explicitly, and every signature handed out earlier in a history is re-checked later (the bytes are the caller's). Options name any of sixteen hashes (too short to sign, 32-byte ones that are not SHA-256, ones not linked into the program) as crypto.Hash, inside *ECDSAOptions or inside a crypto.SignerOpts of a foreign type; long histories sign earlier digests again at cache-sized back-distances and require the same (r, s, v); garbage collections are a tape-decided step; a few histories run in a GOARCH=386 build (32-bit int/uint: coverage.platform_386) and in a build made with go1.26.8 (coverage.toolchain_go1_26); readers that panic. Key objects come and go while the keys stay (an operation of the history: passers-by imported, used once and dropped; every key signs one (digest, entropy) pair; all key objects are dropped and collected and the keys imported again from their bytes in a tape-chosen rotation; the same pair signed again must give the same signatures); one signing call in six is made on a key object imported for that call alone (the caller holds no reference while the library works); one device in ten runs one or two complete garbage collections, finalizers included, inside its first Read, and one in ten signs with a bystander key inside its first Read (a reader that calls back into the library).",
    note="Keys and digests are whatever the seeded workload draws (boundary-biased) - sampling, not enumeration over all d and digests. The x(R) >= n bit of the recovery id is unreachable for an honest signer (2^-128) and is not exercised."),
  "C14": dict(cat="exploration", ref="DESIGN.md section 4 (C14)",
    technique="deterministic simulation of the aux-randomness reader seam with fault injection; every signing event compared byte-for-byte with an independent BIP-340 model",
-   text="Entropy-source clause: every successful Schnorr Sign under every simulated aux-randomness device equals the BIP-340 reference signature on the 32 bytes actually delivered, verifies in model and library, consumes exactly 32 bytes, aborts on a read error before byte 32, never fails on a healthy device; Schnorr keys derived from ECDSA keys expose the even-y point, its x and the raw scalar. Key-derivation clause: in pool-world call histories every Schnorr key built from a byte string, an ECDSA key object or a pool point (after arbitrary arithmetic histories and re-randomised projective representatives, odd and even y) must expose the model's even-y point, its x coordinate and - sampled - produce the BIP-340 reference signature; Sign is called with every kind of opts value (documented as ignored) and messages of 0..200 bytes, at SHA-256 block boundaries and around 1..8 KiB, the empty message as nil and as an empty slice, a strictly shorter message after a longer one with the same key; aux bytes written by a helper goroutine while the signer's stack moves, aux equal to the key encoding, its negation or the message, readers of standard-library types; garbage collections as a tape-decided step; readers that panic; a few histories in a GOARCH=386 build and in a build made with go1.26.8. Stall world (as for C09, Schnorr signer): an aux-randomness reader that blocks under a simulated clock must be waited for or failed with, never skipped.",
+   text="Entropy-source clause: every successful Schnorr Sign under every simulated aux-randomness device equals the BIP-340 reference signature on the 32 bytes actually delivered, verifies in model and library, consumes exactly 32 bytes, aborts on a read error before byte 32, never fails on a healthy device; Schnorr keys derived from ECDSA keys expose the even-y point, its x and the raw scalar. Key-derivation clause: in pool-world call histories every Schnorr key built from a byte string, an ECDSA key object or a pool point (after arbitrary arithmetic histories and re-randomised projective representatives, odd and even y) must expose the model's even-y point, its x coordinate and - sampled - produce the BIP-340 reference signature; Sign is called with every kind of opts value (documented as ignored) and messages of 0..200 bytes, at SHA-256 block boundaries and around 1..8 KiB, the empty message as nil and as an empty slice, a strictly shorter message after a longer one with the same key; aux bytes written by a helper goroutine while the signer's stack moves, aux equal to the key encoding, its negation or the message, readers of standard-library types; garbage collections as a tape-decided step; readers that panic; a few histories in a GOARCH=386 build and in a build made with go1.26.8. Stall world (as for C09, Schnorr signer): an aux-randomness reader that blocks under a simulated clock must be waited for or failed with, never skipped. Key objects come and go while the keys stay (an operation of the history: passers-by imported, used once and dropped; every key signs one (digest, entropy) pair; all key objects are dropped and collected and the keys imported again from their bytes in a tape-chosen rotation; the same pair signed again must give the same signatures); one signing call in six is made on a key object imported for that call alone (the caller holds no reference while the library works); one device in ten runs one or two complete garbage collections, finalizers included, inside its first Read, and one in ten signs with a bystander key inside its first Read (a reader that calls back into the library).",
    note="Key parity x nonce parity x message length are sampled (probes count them), not enumerated."),
 }
 
